@@ -1,5 +1,6 @@
 ----------------------------- MODULE FaultTrace -----------------------------
-(* C11, session level: outcome of a database session in which one output append of a flush or of a compaction failed
+(* C11, session level: outcome of a database session in which one output append of a flush (also the flush of the replayed log inside
+   Open: target "recflush") or of a compaction failed
    (ENOSPC injected into write(2) by strace, or the compaction's stream writer failing through the verif hook).
    FaultIsReported: a fault that was hit is reported (an API call returns an error or the process stops) and never hangs;
    NotInstalled: a compaction whose output is incomplete is never reflected in place of its inputs; afterwards the directory still
@@ -19,6 +20,8 @@ Check == IF ~Ev.hit THEN "ok"
          \* the inputs of a failed compaction are untouched: the directory opens and reads like the reference map
          ELSE IF Ev.target = "compact" /\ ~Ev.reopenOk THEN "reopen-failed-after-failed-compaction"
          ELSE IF (Ev.target = "compact" \/ ~Ev.reported) /\ Ev.reopenOk /\ Ev.m # Ev.model THEN "reads-differ-after-fault"
+         \* the flush of the replayed log failed inside Open: whatever Open said, the log must still be there for the next Open
+         ELSE IF Ev.target = "recflush" /\ Ev.reopenOk /\ Ev.m # Ev.model THEN "acknowledged-writes-lost-after-failed-recovery-flush"
          ELSE "ok"
 Step == /\ l <= Len(Trace) /\ l' = l + 1
         /\ LET c == Check IN IF c = "ok" THEN nok' = nok + 1 /\ UNCHANGED bad
